@@ -14,12 +14,21 @@
                            of Uniform::new exceeds the model's fuel); in particular NOT Err 4:
                            the float-driven step never draws a start outside the sequence.
 
-   Theorems only (closed by lemmas of SamplerF32Proofs / SamplerF64). *)
+     sampler_w, run_w, next_w   (SamplerStream.v, wave 3) the sampler as a function of the generator's WORD
+                           STREAM: initial starts, seed set, every hold-out and every new start computed from
+                           the words following rand 0.8.8 -- no hold-out index, no choice list as input.
+                           sampler_deterministic, sampler_inv_stream, sampler_no_panic_oops_stream(_closed).
+     allowed_w r           Ok, the documented panics 5..9, Err 2 (seed set rejected by new_), Err 5 (the stream
+                           ends / wrong word width), Err 6 (unmodelled branch of index::sample), OutOfFuel
+                           (proved impossible: sampler_stream_never_out_of_fuel); NOT Err 1 / 3 / 4.
+
+   Theorems only (closed by lemmas of SamplerF32Proofs / SamplerF64 / SamplerStreamProofs / SamplerFuel). *)
 From Coq Require Import List Arith Bool NArith ZArith Lia.
 From LMBase Require Import Res ListX IEEE.
 From LMPwm Require Import PwmModel.
 From LMSampler Require Import SamplerModel SamplerLemmas SamplerSpec SamplerProofs SamplerRun
-  SamplerF32 SamplerF32Proofs SamplerF64 SamplerSupport SamplerScale SamplerWord SamplerShape.
+  SamplerF32 SamplerF32Proofs SamplerF64 SamplerSupport SamplerScale SamplerWord SamplerShape
+  SamplerOops SamplerStream SamplerStreamProofs SamplerFuel.
 Import ListNotations.
 
 (* ------------------------------------------------------------------ the draw *)
@@ -207,12 +216,201 @@ Theorem zoops_decision_spec :
          ch_accept ch = negb (F32.lt (ic_of fpow2 p3) (ic_of fpow2 p1))).
 Proof. exact zoops_decision. Qed.
 
+
+(* ------------------------------------------------------------------ the word stream *)
+
+(* SamplerStream.v computes EVERY random decision from the words the generator hands out
+   (rand 0.8.8: Uniform<usize>::sample for the initial starts and the hold-out, gen_index /
+   gen_range for the hold-out among the seeds, index::sample for the seed set, one u64 for
+   WeightedIndex::sample): sampler_w = Sampler::_new followed by k calls of next() as a function
+   of data set, parameters, libm oracles and the stream.  Nothing else enters: in particular
+   no hold-out index and no choice list. *)
+
+(* "Two runs with the same data, parameters and seed produce identical traces": the trace of k
+   calls is the run (C16.v) of the choice list the stream determines, and it depends only on
+   the words consumed -- any two streams that agree on that prefix give the same trace and
+   leave what follows the prefix.  (Outside: the generator itself, StdRng: seed -> words, and
+   that the implementation asks the generator for nothing else: checked on every case by
+   rerun=same and by the replay of the rw= words of every call, not proved.) *)
+Theorem sampler_deterministic :
+  forall flog2 fpow2 fexp2 c st k ws t r,
+    run_w flog2 fpow2 fexp2 c st k ws = Ok (t, r) ->
+    run c st (choices_w flog2 fpow2 fexp2 c st k ws) = Ok t /\
+    length t = k /\
+    exists used, ws = used ++ r /\
+      forall r2, run_w flog2 fpow2 fexp2 c st k (used ++ r2) = Ok (t, r2).
+Proof.
+  intros flog2 fpow2 fexp2 c st k ws t r H.
+  destruct (run_w_is_run flog2 fpow2 fexp2 c k st ws t r H) as [H1 [H2 _]].
+  split; [exact H1|]. split; [exact H2|]. exact (run_w_reads flog2 fpow2 fexp2 c k st ws t r H).
+Qed.
+
+(* the same for the construction: the initial starts are a function of the words consumed *)
+Theorem initial_starts_deterministic :
+  forall W data ws sts r,
+    starts_w W data ws = Ok (sts, r) ->
+    exists used, ws = used ++ r /\ forall r2, starts_w W data (used ++ r2) = Ok (sts, r2).
+Proof. intros W data ws sts r. apply starts_w_reads. Qed.
+
+(* the values computed from the words are legal ones: the initial starts leave every window
+   inside its sequence, the hold-out is one select_holdout can return (in range; a seed during
+   the inertia phase) -- for every stream of u32 / u64 words *)
+Theorem initial_starts_from_stream_in_range :
+  forall W data ws,
+    Forall (fun s => (W <= length s)%nat) data -> stream_ok ws ->
+    match starts_w W data ws with
+    | Ok (sts, r) => starts_in_range W data sts = true /\ stream_ok r
+    | Err e => e = 5%nat
+    | _ => False
+    end.
+Proof. intros W data ws Hl Hs. exact (starts_w_ok W data Hl ws Hs). Qed.
+
+Theorem holdout_from_stream_legal :
+  forall c st ws,
+    CInv c st -> seed_ok c -> stream_ok ws ->
+    match holdout_w c st ws with
+    | Ok (z, r) => select_holdout c st z = Ok z /\ (z < length (cData c))%nat /\ stream_ok r
+    | Panic s => (s = 5 \/ s = 6)%nat
+    | Err e => e = 5%nat
+    | OutOfFuel => False
+    end.
+Proof. intros c st ws Hi Hs Hw. exact (holdout_w_ok c st Hi Hs ws Hw). Qed.
+
+(* one call driven by the stream: the invariant of C16 and the postcondition of next() hold,
+   or the outcome is one of allowed_w (never Err 3 / Err 4: no impossible choice) *)
+Theorem stream_step_outcomes :
+  forall flog2 fpow2 fexp2 c st ws,
+    WF c -> seed_ok c -> Inv c st -> stream_ok ws ->
+    match next_w flog2 fpow2 fexp2 c st ws with
+    | Ok (x, r) => Inv c (fst x) /\ next_post c st (fst x) (snd x) /\ stream_ok r
+    | r => allowed_w r
+    end.
+Proof. exact next_w_safe. Qed.
+
+(* sampler_inv of C16.v for the sampler as a function of the word stream: both modes, all
+   parameters, all run lengths, every stream of u32 / u64 words, every libm *)
+Theorem sampler_inv_stream :
+  forall (freq : N -> N -> Z) flog2 fpow2 fexp2 K W data wraps m initial inertia patience k ws,
+    data_ok K W data ->
+    Forall (fun wr => (W <= wr)%nat) wraps ->
+    stream_ok ws ->
+    match sampler_w flog2 fpow2 fexp2 K W data wraps m initial inertia patience k ws with
+    | Ok (cs, t, r) =>
+        length t = k /\
+        Holds_C16 freq K W data (report_of freq (snd cs)) (obs_of_trace freq t)
+    | r => allowed_w r
+    end.
+Proof.
+  intros freq flog2 fpow2 fexp2. exact (sampler_w_holds flog2 fpow2 fexp2 freq).
+Qed.
+
+(* Oops mode, at least two sequences, all longer than the width, wrap >= width: for EVERY
+   stream of words and every libm the sampler does not panic -- except for the weight overflow
+   (site 8: the weights of update_holdout sum to +inf and Uniform::new(0, +inf) panics), which
+   depends on magnitudes (2^score >= 2^1024) that the model leaves to the exp2 oracle.  Err 5:
+   the (finite) stream ends or delivers a word of the wrong width; OutOfFuel (the scale loop
+   of Uniform::new exceeds the model's fuel 8) is excluded by sampler_stream_never_out_of_fuel:
+   see sampler_no_panic_oops_stream_closed.
+   FULL STATEMENT "no panic for any word stream" is FALSE as it stands: see
+   sampler_no_panic_oops_unconditional_refuted below (site 8 is reachable). *)
+Theorem sampler_no_panic_oops_stream :
+  forall flog2 fpow2 fexp2 K W data wraps initial inertia patience k ws,
+    data_ok K W data ->
+    Forall (fun s => (W < length s)%nat) data ->
+    (2 <= length data)%nat ->
+    Forall (fun wr => (W <= wr)%nat) wraps ->
+    stream_ok ws ->
+    (N.of_nat k <= usize_max)%N ->
+    match sampler_w flog2 fpow2 fexp2 K W data wraps Oops initial inertia patience k ws with
+    | Ok _ => True
+    | Panic s => s = 8%nat
+    | Err e => e = 5%nat
+    | OutOfFuel => True
+    end.
+Proof. exact sampler_w_oops. Qed.
+
+
+(* ------------------------------------------------------------------ fuel *)
+
+(* the OutOfFuel outcome admitted by allowed_g / allowed_w never occurs: the scale loop of
+   UniformFloat::new(0, total) (decrease the scale by one ulp while scale * (1 - 2^-52) + 0 >= total)
+   stops after at most two tests for every finite total > 0 -- round(s * (1 - 2^-52)) <= s, and
+   the float whose bit pattern is one less than that of a positive finite x is strictly below x
+   (SamplerFuel.decr_lt) -- so the model's fuel 8 is never exhausted *)
+Theorem uniform_scale_fuel_suffices : forall ws, wi_new ws <> WFuel.
+Proof. exact wi_new_no_fuel. Qed.
+
+Theorem next_g_never_out_of_fuel :
+  forall flog2 fpow2 fexp2 c st z word,
+    WF c -> seed_ok c -> Inv c st -> next_g flog2 fpow2 fexp2 c st z word <> OutOfFuel.
+Proof. exact next_g_no_fuel. Qed.
+
+Theorem sampler_stream_never_out_of_fuel :
+  forall flog2 fpow2 fexp2 K W data wraps m initial inertia patience k ws,
+    data_ok K W data ->
+    Forall (fun wr => (W <= wr)%nat) wraps ->
+    stream_ok ws ->
+    sampler_w flog2 fpow2 fexp2 K W data wraps m initial inertia patience k ws <> OutOfFuel.
+Proof. exact sampler_w_no_fuel. Qed.
+
+(* sampler_no_panic_oops_stream without the fuel case: Ok, the weight overflow, or the stream fell short *)
+Theorem sampler_no_panic_oops_stream_closed :
+  forall flog2 fpow2 fexp2 K W data wraps initial inertia patience k ws,
+    data_ok K W data ->
+    Forall (fun s => (W < length s)%nat) data ->
+    (2 <= length data)%nat ->
+    Forall (fun wr => (W <= wr)%nat) wraps ->
+    stream_ok ws ->
+    (N.of_nat k <= usize_max)%N ->
+    (exists cs t r, sampler_w flog2 fpow2 fexp2 K W data wraps Oops initial inertia patience k ws = Ok (cs, t, r)) \/
+    sampler_w flog2 fpow2 fexp2 K W data wraps Oops initial inertia patience k ws = Panic 8 \/
+    sampler_w flog2 fpow2 fexp2 K W data wraps Oops initial inertia patience k ws = Err 5.
+Proof.
+  intros flog2 fpow2 fexp2 K W data wraps initial inertia patience k ws Hd Hs Hn Hw Hok Hk.
+  pose proof (sampler_w_oops flog2 fpow2 fexp2 K W data wraps initial inertia patience k ws Hd Hs Hn Hw Hok Hk) as H1.
+  pose proof (sampler_w_no_fuel flog2 fpow2 fexp2 K W data wraps Oops initial inertia patience k ws Hd Hw Hok) as H2.
+  destruct (sampler_w flog2 fpow2 fexp2 K W data wraps Oops initial inertia patience k ws) as [[[cs t] r]|e|s|];
+    cbn [oops_outcome] in H1.
+  - left. eauto.
+  - right. right. congruence.
+  - right. left. congruence.
+  - contradiction.
+Qed.
+
 (* ------------------------------------------------------------------ pins *)
 
 Check (eq_refl : @allowed_g nat (Err 4) = (4 = 3 \/ 4 = 5)%nat).
 Check (eq_refl : @allowed_g nat (Panic 10) = (5 <= 10 <= 9)%nat).
 Check ((fun _ _ => eq_refl) : forall fpow2 p,
   ic_of fpow2 p = info_content fpow2 (fst p) (snd p)).
+Check (eq_refl : @allowed_g nat OutOfFuel = True).
+Check (eq_refl : @allowed_w nat (Err 3) = (3 = 2 \/ 3 = 5 \/ 3 = 6)%nat).
+Check (eq_refl : @allowed_w nat (Err 1) = (1 = 2 \/ 1 = 5 \/ 1 = 6)%nat).
+Check (eq_refl : @allowed_w nat (Panic 10) = (5 <= 10 <= 9)%nat).
+Check (eq_refl : stream_ok = Forall wd_ok).
+Check ((fun _ => eq_refl) : forall w,
+  wd_ok w = match w with W32 v => (0 <= v < 2 ^ 32)%Z | W64 v => (0 <= v < 2 ^ 64)%Z end).
+Check sampler_deterministic :
+  forall flog2 fpow2 fexp2 c st k ws t r,
+    run_w flog2 fpow2 fexp2 c st k ws = Ok (t, r) ->
+    run c st (choices_w flog2 fpow2 fexp2 c st k ws) = Ok t /\
+    length t = k /\
+    exists used, ws = used ++ r /\
+      forall r2, run_w flog2 fpow2 fexp2 c st k (used ++ r2) = Ok (t, r2).
+Check sampler_no_panic_oops_stream :
+  forall flog2 fpow2 fexp2 K W data wraps initial inertia patience k ws,
+    data_ok K W data ->
+    Forall (fun s => (W < length s)%nat) data ->
+    (2 <= length data)%nat ->
+    Forall (fun wr => (W <= wr)%nat) wraps ->
+    stream_ok ws ->
+    (N.of_nat k <= usize_max)%N ->
+    match sampler_w flog2 fpow2 fexp2 K W data wraps Oops initial inertia patience k ws with
+    | Ok _ => True
+    | Panic s => s = 8%nat
+    | Err e => e = 5%nat
+    | OutOfFuel => True
+    end.
 
 (* ------------------------------------------------------------------ non-vacuity *)
 
@@ -291,3 +489,66 @@ Example ex_run_g_needs_word :
   | _ => False
   end.
 Proof. vm_compute. reflexivity. Qed.
+
+(* ------------------------------------------------------------------ the word stream: non-vacuity *)
+
+(* test vectors recorded from rand 0.8.8 through the harness (corpus/C16/panics.txt p3 and p14):
+   three sequences of 8, 7, 7 symbols, width 3: the three u64 words below gave the starts 0, 1, 0;
+   index::sample(3, 2) consumed three u32 words (the first is rejected) and returned [2; 0] *)
+Example ex_starts_w :
+  starts_w 3 [[0;1;3;2;2;3;1;0];[2;2;3;0;1;1;0];[3;3;3;2;0;1;0]]%nat
+           [W64 1756299670138968556; W64 6502249631844956996; W64 3391345785722231991; W32 7]
+  = Ok ([0;1;0]%nat, [W32 7]).
+Proof. vm_compute. reflexivity. Qed.
+
+Example ex_index_sample :
+  seeds_w 3 2 [W32 1479264693; W32 247412726; W32 375712501; W64 9] = Ok ([2;0]%nat, [W64 9]).
+Proof. vm_compute. reflexivity. Qed.
+
+(* the rejection zone of Uniform<usize>: for n = 3 the word (2^64 - 1) / 3 is rejected
+   (lo = 2^64 - 1 > zone = 2^64 - 2), the next word is taken; a word of the wrong width or the
+   end of the stream is Err 5 *)
+Example ex_uniform_rejects :
+  uniform_usize 3 [W64 6148914691236517205; W64 12297829382473034411; W64 1] = Ok (2%Z, [W64 1]) /\
+  uniform_usize 3 [W32 5] = Err 5 /\ uniform_usize 3 [] = Err 5.
+Proof. vm_compute. repeat split; reflexivity. Qed.
+
+(* a run driven by the stream alone (sampler_inv_stream / sampler_deterministic are not vacuous):
+   Oops on the three sequences of ex_run_g; three words for the initial starts, then per call
+   one word for the hold-out and one for the draw *)
+Definition ex_ws : stream :=
+  [W64 0; W64 9223372036854775808; W64 18446744073709551615;
+   W64 0; W64 9223372036854775808;
+   W64 12297829382473034411; W64 0;
+   W64 7; W64 18446744073709551615; W32 1].
+
+Example ex_sampler_w :
+  match sampler_w ex_log2 ex_pow2 ex_exp2 3 2 ex_d3 [2;2;2]%nat Oops 0 0 0 3 ex_ws with
+  | Ok (cs, t, r) =>
+      list_eqb Nat.eqb (st_starts (snd cs)) [0;2;4]%nat &&
+      list_eqb Nat.eqb (map (fun x => match snd x with Some it => it_z it | None => 99%nat end) t) [0;2;0]%nat &&
+      list_eqb (list_eqb Nat.eqb) (map (fun x => st_starts (fst x)) t) [[2;2;4];[2;2;0];[4;2;0]]%nat &&
+      match r with [W32 1] => true | _ => false end
+  | _ => false
+  end = true.
+Proof. vm_compute. reflexivity. Qed.
+
+Example ex_stream_ok : stream_ok ex_ws.
+Proof. unfold stream_ok, ex_ws. repeat constructor; cbn; lia. Qed.
+
+(* "no panic for any word stream" without the exception is false: with a 2^x whose values are
+   +inf (what 2f64.powf returns for x >= 1024) the premises of sampler_no_panic_oops_stream
+   hold and the first call panics at site 8 *)
+Definition ex_exp2_inf (y : F64.t) : F64.t := F64.inf.
+
+Theorem sampler_no_panic_oops_unconditional_refuted :
+  exists flog2 fpow2 fexp2 K W data wraps k ws,
+    data_ok K W data /\ Forall (fun s => (W < length s)%nat) data /\ (2 <= length data)%nat /\
+    Forall (fun wr => (W <= wr)%nat) wraps /\ stream_ok ws /\ (N.of_nat k <= usize_max)%N /\
+    sampler_w flog2 fpow2 fexp2 K W data wraps Oops 0 0 0 k ws = Panic 8.
+Proof.
+  exists ex_log2, ex_pow2, ex_exp2_inf, 3%nat, 2%nat, ex_d3, [2;2;2]%nat, 1%nat, ex_ws.
+  split. { unfold data_ok, ex_d3. repeat split; try (repeat constructor); vm_compute; discriminate. }
+  split; [repeat constructor|]. split; [cbn; lia|]. split; [repeat constructor|].
+  split; [exact ex_stream_ok|]. split; [vm_compute; discriminate|]. vm_compute. reflexivity.
+Qed.
